@@ -3,14 +3,16 @@
 mod verif_kani_io {
     use super::*;
 
-    // a stream that records what it is given (raw pointer: no Arc / Mutex in the model)
-    struct Rec(*mut Vec<u8>);
+    // a stream that records what it is given (raw pointer: no Arc / Mutex in the model) and, like a pipe or a socket, may
+    // accept only part of a buffer: at most `max` bytes per call
+    struct Rec(*mut Vec<u8>, usize);
     unsafe impl Send for Rec {}
     unsafe impl Sync for Rec {}
     impl Write for Rec {
         fn write(&mut self, buf: &[u8]) -> Result<usize> {
-            unsafe { (*self.0).extend_from_slice(buf); }
-            Ok(buf.len())
+            let n = if buf.len() < self.1 { buf.len() } else { self.1 };
+            unsafe { (*self.0).extend_from_slice(&buf[..n]); }
+            Ok(n)
         }
         fn flush(&mut self) -> Result<()> { Ok(()) }
     }
@@ -31,7 +33,7 @@ mod verif_kani_io {
 
         let mut tb = PrintTarget::Buffer(Vec::new());
         let mut sink: Vec<u8> = Vec::new();
-        let mut ts = PrintTarget::Stream(Box::new(Rec(&mut sink as *mut Vec<u8>)));
+        let mut ts = PrintTarget::Stream(Box::new(Rec(&mut sink as *mut Vec<u8>, usize::MAX)));
 
         let r1 = tb.write(&a[..la]); let r2 = tb.write(&b[..lb]);
         let s1 = ts.write(&a[..la]); let s2 = ts.write(&b[..lb]);
@@ -51,6 +53,27 @@ mod verif_kani_io {
         kani::cover!(la == 3 && lb == 2);
         kani::cover!(la == 0 && lb == 1);
         std::mem::forget(tb); std::mem::forget(ts); std::mem::forget(sink);
+    }
+
+    // a stream that accepts only part of a buffer: PrintTarget::write must hand back the stream's own count (so that write_all
+    // re-sends the rest) - reporting the full length would silently truncate the output of a stream target (seed C20_L)
+    #[kani::proof]
+    #[kani::unwind(6)]
+    fn print_target_stream_short_write_is_reported() {
+        let a: [u8; 3] = kani::any();
+        let la: usize = kani::any(); kani::assume(la <= 3);
+        let max: usize = kani::any(); kani::assume(max <= 3);
+        let mut sink: Vec<u8> = Vec::new();
+        let mut ts = PrintTarget::Stream(Box::new(Rec(&mut sink as *mut Vec<u8>, max)));
+        let r = ts.write(&a[..la]);
+        let want = if la < max { la } else { max };
+        assert!(matches!(r, Ok(n) if n == want));
+        assert!(sink.len() == want);
+        let mut i = 0;
+        while i < want { assert!(sink[i] == a[i]); i += 1; }
+        kani::cover!(want < la);
+        kani::cover!(want == la && la > 0);
+        std::mem::forget(ts); std::mem::forget(sink);
     }
 
     // target switching: print_to_buffer starts from an empty buffer (nothing of an earlier solve leaks into the next capture),
